@@ -1070,6 +1070,26 @@ class Pass3(CompilePass):
                             node=clause.value,
                         )
 
+    def _check_targets(self, node, what):
+        for target in node.var_list:
+            if not isinstance(target, Lvalue):
+                # the name of a CONST or of a FUNCTION
+                raise CompileError(
+                    EC.DUPLICATE_DEFINITION,
+                    f'{what} target is not a variable',
+                    node=target)
+            if target.type.is_array or not target.type.is_builtin:
+                raise CompileError(
+                    EC.TYPE_MISMATCH,
+                    f'{what} target must be of a builtin type',
+                    node=target)
+
+    def process_input_pre(self, node):
+        self._check_targets(node, 'INPUT')
+
+    def process_read_pre(self, node):
+        self._check_targets(node, 'READ')
+
     def process_print_pre(self, node):
         if node.format_string and \
            node.format_string.type != Type.STRING:
